@@ -986,6 +986,7 @@ func runDistributor(t *testing.T, r *rep.R) {
 	cases := dCases(th)
 	r.Set("dist_cases", len(cases))
 	k := &dChecker{r: r, samples: map[string]any{}}
+	r.Add("dist_variant_log_listed_but_not_contacted", 0)
 	done := enum.ParFor(len(cases), r.Expired, func(i int) {
 		c := cases[i]
 		var res dResult
